@@ -302,6 +302,9 @@ class SimSocket(object):
                 m = min(n, net.cfg.recv_cap)
                 d = bytes(p.buf[:m])
                 del p.buf[:m]
+                # a second scheduling point: the bytes have left the socket but the caller has not seen them yet (another
+                # thread may close the connection or announce it down in between)
+                k.yield_()
                 return d
             if p.eof:
                 return b""
